@@ -149,7 +149,59 @@ def krylov_rules(chk, repo, P='C14'):
                     chk.ob(f'{P}.R3', where(repo, fi, node), f'{fi.name} with the {tag} result of {prod}: {text[:100]}', ok,
                            text, key=f'{P}.R3|{q}|{prod}|{tag}|{norm(node)[:70]}')
     chk.floor(f'{P}.R3', n_cons, 10)
+    dtype_rule(chk, repo, f'{P}.R4')
     return n_ret, n_cons
+
+
+REAL_REDUCTIONS = ('np.linalg.norm', 'abs', 'np.abs')
+
+
+def dtype_rule(chk, repo, rid):
+    """arrays that store (non-reduced) results of the matrix-free map must be complex: the map may return complex vectors
+    for real input"""
+    chk.rule(rid, 'storage type: every array that receives values derived from Afunc(.) other than real reductions (norm, '
+                  '.real) is allocated with dtype=complex, independently of the dtype of the start vector')
+    n = 0
+    for q in ('krylov.lanczos_iteration', 'krylov.arnoldi_iteration'):
+        fi = repo.func(q)
+        tainted = set()
+        changed = True
+        while changed:
+            changed = False
+            for s_ in ast.walk(fi.node):
+                if isinstance(s_, (ast.Assign, ast.AugAssign)):
+                    val = s_.value
+                    tg = s_.targets if isinstance(s_, ast.Assign) else [s_.target]
+                    src = any(isinstance(c, ast.Call) and norm(c.func) == 'Afunc' for c in ast.walk(val)) or \
+                        any(isinstance(x, ast.Name) and x.id in tainted for x in ast.walk(val))
+                    if src:
+                        for t in tg:
+                            if isinstance(t, ast.Name) and t.id not in tainted:
+                                tainted.add(t.id)
+                                changed = True
+        allocs = {}
+        for s_ in ast.walk(fi.node):
+            if isinstance(s_, ast.Assign) and isinstance(s_.targets[0], ast.Name) and isinstance(s_.value, ast.Call) and \
+                    norm(s_.value.func) == 'np.zeros':
+                dt = [k for k in s_.value.keywords if k.arg == 'dtype']
+                allocs[s_.targets[0].id] = (norm(dt[0].value) if dt else None, s_)
+        for s_ in ast.walk(fi.node):
+            if isinstance(s_, ast.Assign) and isinstance(s_.targets[0], ast.Subscript) and \
+                    isinstance(s_.targets[0].value, ast.Name) and s_.targets[0].value.id in allocs:
+                v = s_.value
+                if not any(isinstance(x, ast.Name) and x.id in tainted for x in ast.walk(v)):
+                    continue
+                real = (isinstance(v, ast.Attribute) and v.attr == 'real') or \
+                    (isinstance(v, ast.Call) and norm(v.func) in REAL_REDUCTIONS)
+                if real:
+                    continue
+                name = s_.targets[0].value.id
+                dt, alloc = allocs[name]
+                chk.ob(rid, where(repo, fi, alloc), f'{fi.name}: `{name}` receives `{norm(v)[:40]}` and is allocated complex',
+                       dt == 'complex', f'allocation `{norm(alloc.value)[:70]}`', key=f'{rid}|{q}|{name}|{norm(v)[:40]}')
+                n += 1
+    chk.floor(rid, n, 3)
+    return n
 
 
 def run(chk, repo, tier):
